@@ -199,6 +199,20 @@ def cases(draw, max_channels=6, max_frames=25):
         xs = [start + i * step for i in range(nfr)]
     channels = [{'name': draw(names(used)), 'units': draw(unit_texts()), 'long': draw(genlas.safe_descriptions()),
                  'dtype': xdtype, 'dims': [1], 'values': [[v] for v in xs]}]
+    if draw(st.integers(0, 5)) == 0:
+        # a first channel with three values per frame (x, x + m, x + 2m on the grid of the X values): whatever the reduction
+        # the column is x + constant, so it stays a usable index; first / min give x, mean / median x + m, max x + 2m
+        m = draw(st.integers(1, 2))
+        if xdtype.startswith('float'):
+            grid = [[(start + i * step + o * m) / 10.0 ** j if j >= 0 else float((start + i * step + o * m) * 10 ** -j) for o in range(3)]
+                    for i in range(nfr)]
+            if xdtype == 'float32':
+                import numpy as np
+                grid = [[float(np.float32(v)) for v in fr] for fr in grid]
+        else:
+            grid = [[start + i * step + o * m for o in range(3)] for i in range(nfr)]
+        channels[0]['dims'] = [3]
+        channels[0]['values'] = grid
     for _ in range(nch - 1):
         dtype = draw(st.sampled_from(DTYPES))
         dims = list(draw(st.sampled_from(DIMS)))
@@ -392,6 +406,7 @@ def check(case, cc, fa=None, subset_obj=None):
         dt = chans[i]['dtype']
         cc.cls('dtype:' + (dt if dt.startswith('float') else ('unsigned' if dt.startswith('u') else 'signed')))
     cc.cls('index:integer-dtype', not chans[0]['dtype'].startswith('float'))
+    cc.cls('index:multi-valued', chans[0]['dims'] != [1])
     cc.cls('reduction:' + reduction, bool(multi))
     cc.cls('format:' + fmt[-1])
     cc.cls('width:<=6', width <= 6)
@@ -564,3 +579,4 @@ def parts(tier):
 
 
 RULE += '  Added after the seeding rounds: part write-history (one frame array written 2..3 times with different options; arguments must come back unchanged); identities padded to four characters with subsets naming them exactly or bare (either reading accepted, the sections must agree).'
+RULE += '  Round 16: one first channel in six holds three values per frame (x, x+m, x+2m).'
